@@ -82,7 +82,7 @@ theorem runItems_paths (W : World) (requested : List (String × Sg)) (rec : RunR
         | some env' => exact keepExec_paths requested rec hrec st path g env'
     | load path line =>
       simp only []
-      cases aget st.store.paths path with
+      cases (aget requested path).orElse (fun _ => aget st.store.paths path) with
       | none => rfl
       | some key => rfl
     | evalCall f line => rfl
